@@ -201,6 +201,7 @@ type Trace struct {
 	Reg         []*RegObs     `json:"reg,omitempty"`
 	Deadlock    string        `json:"deadlock,omitempty"` // bubble deadlock panic text on exit
 	Aborted     string        `json:"aborted,omitempty"`
+	AllocBytes  uint64        `json:"alloc_bytes,omitempty"` // heap bytes allocated by the whole process while the case ran
 }
 
 func (t *Trace) label(l string) {
